@@ -16,7 +16,10 @@ func (ex *Exec) guardCheck(st *State, addr Term, write bool, pos token.Pos) {
 		return
 	}
 	for _, g := range ex.guards {
-		if a.Array != g.array {
+		if a.Array != g.array || g.g.Send {
+			continue
+		}
+		if g.g.WriteOnly && !write {
 			continue
 		}
 		// the mutex is a field of the same struct: its address is fld!S.mutex(base)
@@ -42,7 +45,39 @@ func (ex *Exec) guardCheck(st *State, addr Term, write bool, pos token.Pos) {
 	}
 }
 
-func (ex *Exec) selectHook(st *State, fr *Frame, x *ssa.Select, out []Term) {}
+// selectHook: sends on a wake-up channel declared `guarded S.f by mu send`
+// must happen while holding mu (rule W2 of the wait/notify protocol).
+func (ex *Exec) selectHook(st *State, fr *Frame, x *ssa.Select, out []Term) {
+	for _, s := range x.States {
+		if s.Dir == types.SendOnly {
+			ex.sendGuard(st, fr, s.Chan, x.Pos())
+			ex.countSend(st, ex.operand(st, fr, s.Chan))
+		}
+	}
+}
+
+func (ex *Exec) sendGuard(st *State, fr *Frame, ch ssa.Value, pos token.Pos) {
+	un, ok := ch.(*ssa.UnOp)
+	if !ok || un.Op != token.MUL {
+		return
+	}
+	fa, ok := un.X.(*ssa.FieldAddr)
+	if !ok {
+		return
+	}
+	stT := deref(fa.X.Type())
+	w := ex.w
+	an, _ := w.FieldArray(stT, fa.Field)
+	for _, g := range ex.guards {
+		if !g.g.Send || g.array != an {
+			continue
+		}
+		base := ex.operand(st, fr, fa.X)
+		mu := ex.fieldAddr(base, g.structT, g.muIdx)
+		ls := Select(w.heapGet(st.heap, "LockState", ArraySort(SRef, SInt)), mu)
+		ex.addOb(st, "guard", ex.fn.Name()+".guard."+g.g.Struct+"."+g.g.Field+".send", "send on "+g.g.Struct+"."+g.g.Field+" while holding "+g.g.Mutex, pos, Eq(ls, IntLit(-1)))
+	}
+}
 
 func (ex *Exec) checkLockPost(st *State, pos token.Pos) {}
 
@@ -66,4 +101,11 @@ func (ex *Exec) initLocks(st *State, base Term, t types.Type, depth int) {
 			ex.initLocks(st, ex.fieldAddr(base, t, i), ft, depth+1)
 		}
 	}
+}
+
+// countSend: ghost count of send attempts per channel (blocking or not).
+func (ex *Exec) countSend(st *State, ch Term) {
+	w := ex.w
+	cs := w.heapGet(st.heap, "ChanSends", ArraySort(SRef, SInt))
+	w.heapSet(st.heap, "ChanSends", Store(cs, ch, Add(Select(cs, ch), IntLit(1))))
 }
